@@ -12,6 +12,7 @@ import (
 	"io"
 	mrand "math/rand"
 	"os"
+	"os/exec"
 	"path/filepath"
 	"strings"
 	"sync"
@@ -823,6 +824,61 @@ func keygen(run *vk.Run, kg, root string) {
 				}
 			}
 		}
+	}
+	// somebody else creates the -o target while age-keygen is running (its standard error is a pipe that is full, so
+	// it stops at its first message until the pipe is drained): whoever was first owns the file; if that was the
+	// other party, its content survives
+	for round := 0; round < 2; round++ {
+		target := filepath.Join(dir, fmt.Sprintf("raced%d.key", round))
+		pr, pw, err := os.Pipe()
+		if err != nil {
+			vk.Infra("%v", err)
+		}
+		pfd := int(pw.Fd()) // (once: every call of Fd puts the descriptor back into blocking mode)
+		syscall.SetNonblock(pfd, true)
+		fill := make([]byte, 4096)
+		for {
+			if _, err := syscall.Write(pfd, fill); err != nil {
+				break
+			}
+		}
+		syscall.SetNonblock(pfd, false)
+		cmd := exec.Command(kg, "-o", target)
+		cmd.Dir = dir
+		cmd.Stderr = pw
+		if err := cmd.Start(); err != nil {
+			vk.Infra("%v", err)
+		}
+		pw.Close()
+		theirs := []byte("somebody else's file, created while age-keygen was running\n")
+		weCreated := false
+		for waited := 0; waited < 60; waited++ {
+			time.Sleep(10 * time.Millisecond)
+			if _, err := os.Lstat(target); err == nil {
+				break // age-keygen has made the file its own already
+			}
+			if waited == 40 {
+				if f, err := os.OpenFile(target, os.O_WRONLY|os.O_CREATE|os.O_EXCL, 0o644); err == nil {
+					f.Write(theirs)
+					f.Close()
+					weCreated = true
+				}
+				break
+			}
+		}
+		go io.Copy(io.Discard, pr)
+		werr := cmd.Wait()
+		pr.Close()
+		run.Eval(1)
+		if weCreated {
+			now, _ := os.ReadFile(target)
+			if !bytes.Equal(now, theirs) {
+				run.Violation("C15:keygen-overwrites:created-meanwhile", fmt.Sprintf("age-keygen -o F: F was created by somebody else while age-keygen was running (before it had created anything); age-keygen (exit error: %v) replaced its content", werr), map[string]interface{}{"check": "C15.keygen", "case": "raced"})
+			} else if werr == nil {
+				run.Violation("C15:keygen-exit-status:created-meanwhile", "age-keygen -o F exits 0 although F belongs to somebody else and holds no key", map[string]interface{}{"check": "C15.keygen", "case": "raced"})
+			}
+		}
+		run.Distinct(fmt.Sprintf("keygen:raced:%v", weCreated))
 	}
 	// a dangling symlink is not an existing file; whatever happens, a key file that appears must be owner-only
 	os.Symlink("nowhere.key", filepath.Join(dir, "dangling.key"))
